@@ -528,13 +528,20 @@ theorem rshift_negative_refuted : (emitProg p7).toOption.isSome = true ∧
 def shiftExpr (dst : Nat) (lg : Bool) (shift : Int) : Expr :=
   .bin .arsh (.bin .lsh (.reg dst lg true) (.const shift) true .plain) (.const shift) true .plain
 
-theorem load_shift_is_setitem (dst : Nat) (lg : Bool) (shift : Int) (hs : isSmall shift = true) (g : GenState) :
+theorem load_shift_is_setitem (dst : Nat) (lg : Bool) (shift : Int) (hs : isSmall shift = true)
+    (hr : 0 ≤ shift ∧ shift < (if lg then 64 else 32)) (g : GenState) :   -- `Binary.calculate` refuses other shift counts
     setReg dst lg (.ex (shiftExpr dst lg shift)) g =
       (do addOwner dst
           emit ⟨Consts.op_LSH + longBit lg, dst, 0, 0, shift⟩
           emit ⟨Consts.op_ARSH + longBit lg, dst, 0, 0, shift⟩ : GenM Unit) g := by
   by_cases hm : dst ∈ g.owners <;>
     simp [setReg, shiftExpr, ensureExpr, calculate, binRight, binFinish, Expr.asSmallConst, hs, Expr.containsOpt,
-      Expr.contains, getFree, bind, GenM.bind, pure, GenM.pure, addOwner, getOwners, hm, emit, release, BinOp.opcode]
+      Expr.contains, getFree, bind, GenM.bind, pure, GenM.pure, addOwner, getOwners, hm, emit, release, BinOp.opcode,
+      badImm, hr.1, hr.2]
+
+/-- the shift counts `load` uses are inside that range: 32 or 64 minus the 8, 16 or 32 bits of the format -/
+theorem load_shift_in_range (fmt : Fmt) (lg : Bool) (h : fmt = .h ∨ fmt = .b ∨ (lg = true ∧ fmt = .i)) :
+    0 ≤ ((if lg then 64 else 32) - fmt.size * 8 : Int) ∧ ((if lg then 64 else 32) - fmt.size * 8 : Int) < (if lg then 64 else 32) := by
+  rcases h with h | h | ⟨h1, h⟩ <;> subst h <;> cases lg <;> simp_all [Fmt.size]
 
 end Ebv.C01
